@@ -232,13 +232,13 @@ def rule_placeholders(chk, tab, placeholders):
         it_ = EM.interpreter()
         grp_ = EM.instance(it_, EQ, 'CythonGroup')
         for w in sorted(cands):
-            out_ = EM.call(it_, grp_, '_set_kernel', '<%s>' % w, EM.mock(name='kernel'))
+            out_ = EM.call(it_, grp_, '_set_kernel', '<%s>' % w, EM.mock(name='kernel', get_deltap=lambda i, a, k, n, e: 0.6875))
             if not isinstance(out_, str):
                 raise A.Unsupported("result %r" % (out_,))
             if out_ != '<%s>' % w:
                 repl[w] = out_[1:-1] if out_.startswith('<') and out_.endswith('>') else out_
         allw = sorted(repl)
-        joined = EM.call(it_, grp_, '_set_kernel', ' '.join('<%s>' % w for w in allw), EM.mock(name='kernel'))
+        joined = EM.call(it_, grp_, '_set_kernel', ' '.join('<%s>' % w for w in allw), EM.mock(name='kernel', get_deltap=lambda i, a, k, n, e: 0.6875))
         if joined != ' '.join('<%s>' % repl[w] for w in allw):
             repl = dict((w, None) for w in allw)          # order-dependent substitution: no target can be trusted
         none_ = EM.call(it_, grp_, '_set_kernel', '<KERNEL>', None)
